@@ -182,12 +182,12 @@ def alph_c09():
     return rename(base, TMAP, CMAP)
 
 CONFIG = {
-    "C01": dict(relevant={"rows", "ExecError", "Panic", "rejected-wellformed"}, alphabet=alph_c01,
+    "C01": dict(relevant={"rows", "ExecError", "Panic", "rejected-wellformed"}, alphabet=alph_c01, literal_first=True,
                 gen=dict(), depth={"quick": 4, "thorough": 5}, nrand={"quick": 600, "thorough": 12000}),
     "C03": dict(relevant={"order", "rows", "ExecError"}, alphabet=alph_c03, slots=(slots_c03, 5),
                 gen=dict(sort_bias=0.35, p_group=0.1, p_append=0.03), depth={"quick": 4, "thorough": 5},
                 nrand={"quick": 500, "thorough": 10000}),
-    "C05": dict(relevant={"frame", "rqframe"}, alphabet=alph_c05,
+    "C05": dict(relevant={"frame", "rqframe"}, alphabet=alph_c05, literal_first=True,
                 gen=dict(p_join=0.3, p_exclude=0.12), depth={"quick": 4, "thorough": 5}, nrand={"quick": 500, "thorough": 10000}),
     "C04": dict(relevant={"rows", "order", "ExecError", "Panic", "rejected-wellformed"}, alphabet=None,
                 slotmodels=[(slots_c04_top, 4), (slots_c04_group, 4)],
@@ -279,6 +279,11 @@ def check(pid, tier, extra=None):
     models = []
     if cfg.get("alphabet"):
         models.append(("mc", model([from_(first)], cfg["alphabet"](), cfg["depth"][tier])))
+        if cfg.get("literal_first"):
+            # the same pipelines (one transform shorter) over a relation literal with the columns of t:
+            # NULLs, a duplicate row, a negative value; the same rows on every database instance
+            lit_ = fromlit(["k", "a", "b"], [[1, 1, 2], [2, None, 0], [2, None, 0], [3, -2, None]])
+            models.append(("mclit", model([lit_], cfg["alphabet"](), cfg["depth"][tier] - 1)))
     for n, (sl, sd) in enumerate(cfg.get("slotmodels", []) + ([cfg["slots"]] if "slots" in cfg else [])):
         models.append((f"slots{n}", model([from_("t")], sl(tier) if len(inspect.signature(sl).parameters) else sl(), sd)))
     nmc = 0
